@@ -472,6 +472,69 @@ def resync(d, mem, state):
         state['was_final'] = True
 
 
+def used_and_edited(spec, sc, prerun=True):
+    """The Statechart object is first executed by a throw-away interpreter, then edited through
+    the public API and edited back (a composite state moved to another parent and back, a state
+    renamed and renamed back): structurally the same statechart, on a used object.  With
+    prerun=False the object is not executed first; instead every derived query is asked while
+    the state sits under its temporary parent.  Returns
+    (statechart, True) or (a fresh statechart, False) if no such edit applies."""
+    from .spec import from_statechart
+    tree = Tree(spec)
+    sc = sc if sc is not None else to_statechart(spec)
+
+    def view(x):
+        o = from_statechart(x)
+        return (sorted((s['name'], s['kind'], s['parent'], s['initial'], s['memory'])
+                       for s in o['states']),
+                sorted(repr([t['source'], t['target'], t['event'], t['guard'], t['action'],
+                             t['priority']]) for t in o['transitions']))
+    before = view(sc)
+    try:
+        pre = Drive(spec, sc=sc)
+        n = len(spec['transitions'])
+        for k in range(4 if prerun else 0):
+            pre.queue('e%d' % (k % 2), uid='pre%d' % k)
+            try:
+                pre.step([True] * n)
+            except Exception:
+                break
+        used = set(s['initial'] for s in spec['states'] if s.get('initial')) | \
+            set(s['memory'] for s in spec['states'] if s.get('memory'))
+        y = spec['states'][len(spec['states']) // 2]['name']
+        sc.rename_state(y, y + '~')
+        if not prerun:
+            for q in sc.states:
+                sc.depth_for(q), sc.descendants_for(q)
+        sc.rename_state(y + '~', y)
+        moved = False
+        for x in spec['states']:
+            name, p = x['name'], x['parent']
+            if p is None or x['kind'] not in ('compound', 'orthogonal', 'basic') or name in used:
+                continue
+            if x['kind'] == 'basic' and moved:
+                continue
+            others = [q['name'] for q in spec['states']
+                      if q['kind'] in ('compound', 'orthogonal') and q['name'] != p
+                      and q['name'] not in tree.desc_or_self(name)]
+            if not others:
+                continue
+            sc.move_state(name, others[len(name) % len(others)])
+            if not prerun:
+                for q in sc.states:
+                    sc.depth_for(q), sc.descendants_for(q), sc.least_common_ancestor(q, name)
+            sc.move_state(name, p)
+            moved = True
+            if x['kind'] != 'basic':
+                break
+        sc.validate()
+        if view(sc) == before:
+            return sc, True
+    except Exception:
+        pass
+    return to_statechart(spec), False
+
+
 def run_core(case, build=None, epilogue=False, want=None):
     """Run the case; returns (violations, info, records)."""
     spec = probes.instrument(case['spec'])
@@ -504,8 +567,13 @@ def run_core(case, build=None, epilogue=False, want=None):
                 t['action'] = (t.get('action') or 'pass') + \
                     "\nif fv.get('int') == 'boom':\n    raise ValueError('boom')"
     sc = build(spec) if build else None
+    edited = False
+    if case.get('edited', len(case['ops']) % 4 == 3):
+        sc, edited = used_and_edited(spec, sc, prerun=case.get('prerun', len(case['ops']) % 8 == 3))
     d = Drive(spec, sc=sc, record_meta=True, ignore_contract=ambient != 'contracts')
     out, info, mem, state = [], Info(), {}, {}
+    if edited:
+        info.label('runs on a statechart that was executed, edited and restored before')
     if ambient == 'contracts':
         info.label('runs with contract checking on (conditions hold)')
     if ambient == 'monitored':
